@@ -15,6 +15,7 @@ import (
 	"net/url"
 	"sort"
 	"strings"
+	"time"
 
 	"github.com/ipfs/go-cid"
 	"github.com/ipld/go-ipld-prime/datamodel"
@@ -579,6 +580,7 @@ func c15Replies(seed int64, tier string) ([]*reply, []invocation.Invocation, uca
 func init() {
 	gens["C15"] = func(o genOpts) error {
 		replies, invs, service := c15Replies(o.seed, o.tier)
+		bset := newBytesC15(o, &replies, invs, service) // byte-level model (gen_bytes.go): further bodies, and every scripted reply
 		type panicRec struct {
 			Reply  int      `json:"reply"`
 			Label  string   `json:"label"`
@@ -605,7 +607,10 @@ func init() {
 		framings := map[string]int{}
 		direct := []map[string]any{}
 		for i, rp := range replies {
+			stopWatch := bytesWatchdog(fmt.Sprintf("reply %d (%s)", i, rp.Label), 90*time.Second)
 			obs := runClient(rp, invs, service)
+			bset.observe(i, rp)
+			stopWatch()
 			if len(obs.Panics) > 0 {
 				pr := panicRec{Reply: i, Label: rp.Label, Panics: obs.Panics}
 				if rp.Raw != nil {
@@ -675,6 +680,9 @@ func init() {
 			}
 		}
 		if err := writeJSON(o.out, "labels.json", labels); err != nil {
+			return err
+		}
+		if err := bset.finish(o.out); err != nil {
 			return err
 		}
 		return writeJSON(o.out, "stats.json", map[string]any{"replies": len(replies), "structured_replies": structured,
